@@ -264,6 +264,11 @@ func Run(c *core.Ctx, pool *gjs.Pool) {
 	c.ParMap(len(scen), func(i int) { ck.check(scen[i], false) })
 	c.Phase("bind")
 	ck.finish()
+	for i, s := range scen {
+		if i%(len(scen)/4+1) == 0 {
+			c.Sample(map[string]any{"scenario": s.Prog, "origin": s.Origin, "earlier_command": len(s.Early) > 0, "model_final_instance_orders": len(s.Orders)})
+		}
+	}
 	c.Set("rule", "TLC enumerates every program of the pass-through family (<= 3 generic functions in packages a, b, c, each calling at most one other with its own type parameter; 1-2 roots in main or a) with every resolution of Collector.Finish's range, and the family with <= "+fmt.Sprint(nFam)+" declarations with every layout (<= 2 files), listed file order, discovery order, escaping-variable order and earlier command; the witness shapes it emits and VERIF_SEED-selected larger skeletons (decorated with seeded non-generic code) are rendered as Go modules; each is built coverage.builds_per_scenario times in fresh processes over {directory build, listed files in every permutation} x {minify off, on} x {no, unrelated, generic-sharing earlier command}; an evaluation = one build whose hashes were compared inside its (program, options) group; distinct = distinct (program, options, variant) combinations built at least twice; exhaustive refers to the model families, not to the sampled map orders of the real compiler")
 }
 
